@@ -8,6 +8,9 @@ def run(ctx):
     npat = 900 if ctx.quick() else 6000
     generic.standard(ctx, ["Props_C01", "Props_Pike"], "rx", "api-vs-regexp", lists=(), model=True, ledger="known/C01.ledger",
                      extra_args=["-prop", "C01", "-patterns", npat, "-haystacks", 24])
+    # L0: the Gallina model of the Thompson compiler (Compile.v) applied to the pattern's AST must be the SAME automaton as the
+    # NFA dumped from the real compiler (nfa_eqb), and the observed search results must equal find_at on it (list M)
+    generic.standard(ctx, ["Props_Compile"], "compile-cases", "compiler-model-vs-implementation", lists=("M",), seed=1)
     ctx.coverage["explanation"] = (
         "Coq (Nfa.v, NfaRef.v, Backtrack.v): the reference search on the byte-level Thompson NFA is a priority-ordered DFS with a visited "
         "set; proved for every well-formed NFA, haystack and offset: it reports a match iff an accepting path exists, at the leftmost "
@@ -15,5 +18,10 @@ def run(ctx):
         "state. Tie to the code per run: every pattern's NFA is dumped from the current compiler, wf_nfa is evaluated by the extracted "
         "model, the reference result is compared with regexp (kind compiled-nfa-vs-regexp: the NFA does not denote the pattern) and "
         "every top-level API with regexp (kind api/<strategy>), on a fixed corpus (curated strategy triggers + harvested corpus + "
-        "templates + grammar; 12 AST-derived haystack shapes) with an exact ledger of the recorded failing inputs. NOT proved: that the "
-        "compiler maps every AST to a correct NFA (checked per pattern), the PikeVM / lazy DFA / strategy dispatch (C14, C19).")
+        "templates + grammar; 12 AST-derived haystack shapes) with an exact ledger of the recorded failing inputs. L0 (Regex.v, Compile.v): a Gallina model of "
+        "nfa/compile.go on the raw regexp/syntax AST with a denotational semantics re_match; proved for every pattern of the fragment "
+        "(100% of the corpus) and every haystack: compile r is well-formed, accepting paths = re_match (sound and complete), "
+        "is_match_ref / find_at on compile r = the pattern language / leftmost start; per run the model's compile(ast) is compared "
+        "for EQUALITY with the NFA dumped from the real compiler. Against well-formed-UTF-8 semantics the as-built atoms are proved "
+        "complete, and sound for dot-free patterns with ASCII/small classes; refuted in general (`[^a][^a]` matches the two bytes of "
+        "one rune - the recorded C15 finding). NOT proved: the strategy dispatch (C19), priority of the match END at the AST level.")
